@@ -313,4 +313,27 @@ def rule_f(ctx):
     return r
 
 
-RULES = [rule_a, rule_b, rule_c, rule_d, rule_e, rule_f]
+
+def rule_g(ctx):
+    r = RuleResult("C10-g", "an extender that is itself a selector pseudo is merged into the enclosing pseudo only if both the name and the argument (the An+B of "
+                   ":nth-child(.. of S)) agree: extend_pseudo compares Pseudo.name and Pseudo.argument")
+    prog = ctx.prog()
+    top = prog.one("selector::extend::ExtensionStore::extend_pseudo")
+    fields = set()
+    for b in [top] + list(prog.closures_of(top)):
+        for c in b.calls():
+            if an.tail2(c.callee) in ("PartialEq::ne", "PartialEq::eq") and len(c.args) == 2:
+                x, y = an.trace_operand(b, c.args[0]), an.trace_operand(b, c.args[1])
+                for f in ("name", "argument"):
+                    if x.proj and y.proj and x.proj[-1] == f and y.proj[-1] == f:
+                        fields.add(f)
+    key = "extend_pseudo|same-name-and-argument"
+    if {"name", "argument"} <= fields:
+        r.ok(key)
+    else:
+        r.violate(key, "extend_pseudo compares only %s of the inner and outer pseudo: `:nth-child(even of .e) {@extend .t}` is merged into `:nth-child(odd of .t)` although the "
+                  "An+B parts differ, so the rule matches elements neither selector matched" % sorted(fields), top.loc())
+    return r
+
+
+RULES = [rule_a, rule_b, rule_c, rule_d, rule_e, rule_f, rule_g]
